@@ -120,6 +120,15 @@ CLAIMED.update({
                  'Coq rejection lemmas + fault/fuzz runs against the real HTTP service', 'C20'),
 })
 
+CLAIMED.update({
+    'C18': claim('Theorems (Properties/C18.v, exact rationals): concealment appends one fresh gain criterion, values for every known alternative, old values untouched, values inside the '
+                 'scaled reference range; reference criterion among the existing ones (three strategies); new weight = u x reference weight, u in [0,1); mixing: no-op below two '
+                 'criteria, formula, betweenness, distinct components, components in [0,T]; both pass the checker. Tie: per-stage correspondence + checker on traced concealment / mixing '
+                 'applications inside random bias sequences (repeated application included).',
+                 'fresh id only under the stated prefix invariant (fresh_name_refuted_general gives the witness; the bias then fails cleanly); distinct alternative ids.',
+                 'Coq proof over Qc + per-stage correspondence on traced Go runs', 'C18'),
+})
+
 PENDING_REASON = 'not claimed yet: model, theorems and correspondence for this property are still being built (see DESIGN.md §9 order of work); no check is registered until it is sound'
 
 ALL = ['C%02d' % i for i in range(1, 21)]
